@@ -6,6 +6,9 @@ From Falcon.C06 Require Import Model Spec.
 Import ListNotations.
 Open Scope Z_scope.
 
+Definition v_route (r : res (list (list N))) : val :=
+  match r with Ok l => L [I 0; vlist vstr l] | Http400 => L [I 1] | Crash _ => L [I 2] end.
+
 Definition d_hdr (v : val) : list N * list N := (dstr (nth_val 0 v), dstr (nth_val 1 v)).
 
 (* 0: [path bytes; utf-8/replace decoding (oracle); query; headers; strip; names] ->
@@ -20,6 +23,21 @@ Definition run (v : val) : val :=
        vbool (valid_headers hs && lookups_agree hs names);
        vlist (fun n => vopt vstr (wsgi_get (env_of hs) n)) names;
        vlist (fun n => vopt vstr (asgi_get (scope_of hs) n)) names]
+  | L [I 1; f; fw; xff; xreal; peer] =>
+    let a := dopt dstr in
+    L [v_route (wsgi_access_route (dbool f) (a fw) (a xff) (a xreal) (a peer));
+       v_route (asgi_access_route (dbool f) (a fw) (a xff) (a xreal) (a peer));
+       match asgi_remote_addr (dbool f) (a fw) (a xff) (a xreal) (a peer) with
+       | Ok x => L [I 0; vstr x] | Http400 => L [I 1] | Crash _ => L [I 2]
+       end;
+       vstr (wsgi_remote_addr (a peer))]
+  | L [I 2; text; data; media] =>
+    let a := dopt dstr in
+    L [vopt vstr (wsgi_render_body (a text) (a data) (a media));
+       vopt vstr (asgi_inline_render_body (a text) (a data) (a media))]
+  | L [I 3; path; qs] =>
+    L [vopt (vpair vstr vstr) (sim_split (dstr path) (dopt dstr qs));
+       vpair vstr vstr (target_split (dstr path))]
   | _ => L [I (-1)]
   end.
 
